@@ -379,6 +379,15 @@ func runScenario(s *C20Scenario, dir string) *C20Result {
 			}
 		}
 		tx.ProcessLogging()
+		if s.Audit && s.AuditType == "Serial" && r.SecondOK {
+			// the audit log works for the transaction that follows: its record is there, whatever happened to the
+			// writer while the first one was being logged
+			raw, _ := os.ReadFile(filepath.Join(dir, "audit", "audit.log"))
+			if !strings.Contains(string(raw), tx.ID()) {
+				r.SecondOK = false
+				r.SecondNote = "the audit log holds no record of the following transaction " + tx.ID()
+			}
+		}
 		_ = tx.Close()
 	})
 	if f != nil {
